@@ -1,6 +1,7 @@
 package chainlab
 
 import (
+	"errors"
 	"encoding/json"
 	"fmt"
 
@@ -113,12 +114,22 @@ func (a *Auditor) Submit(batch []*Node) (err error, fs []Finding) {
 	return a.submit("AddBlocks", batch, func() error { return a.N.CM.AddBlocks(Blocks(batch)) }, nil)
 }
 
+// ErrNoState is returned by SubmitValidated (without calling the manager) when
+// the generator has no state for one of the blocks.
+var ErrNoState = errors.New("chainlab: no state for pre-validated block")
+
 // SubmitValidated calls AddValidatedV2Blocks the way the syncer does: only
 // chain-valid v2 blocks with their pure states.
 func (a *Auditor) SubmitValidated(batch []*Node) (err error, fs []Finding) {
 	states := make([]consensus.State, len(batch))
 	for i, n := range batch {
-		states[i] = n.L.State
+		// blocks above an invalid (header-checked only) block come with the
+		// states they are valid relative to, as a checkpoint-synced peer has them
+		g := a.T.GhostLedger(n)
+		if g == nil {
+			return ErrNoState, nil
+		}
+		states[i] = g.State
 	}
 	exp := a.predictValidated(batch)
 	return a.submit("AddValidatedV2Blocks", batch, func() error { return a.N.CM.AddValidatedV2Blocks(Blocks(batch), states) }, &exp)
@@ -137,8 +148,13 @@ func (a *Auditor) predictValidated(batch []*Node) expect {
 		}
 	}
 	last := batch[len(batch)-1]
-	if last.L.State.SufficientlyHeavierThan(a.Tip.L.State) {
-		return expect{false, last, "heavier valid chain"}
+	if last.State().SufficientlyHeavierThan(a.Tip.L.State) {
+		if last.ChainValid {
+			return expect{false, last, "heavier valid chain"}
+		}
+		// the batch itself is taken on trust, but the stored blocks below it are
+		// validated when the reorg applies them
+		return expect{true, a.Tip, "heavier chain contains an invalid block below the pre-validated batch"}
 	}
 	return expect{false, a.Tip, "not sufficiently heavier"}
 }
